@@ -145,6 +145,66 @@ fn describe(v: &Value) -> String {
     format!("{v:?} (kind {:?}, tuple={})", v.kind(), v.is_tuple())
 }
 
+/// Second-level operations on a slice result `r` whose items are `idx` of the original:
+/// `r|length`, `r[-1]`, `r[0]` and four slices of it, judged by the same model.
+fn follow_ups(r: &Value, items: &Items, idx: &[usize], tuple: bool) -> Option<String> {
+    let n = idx.len();
+    let run = |src: &str| eval(src, vec![("r", r.clone())]);
+    match run("r|length") {
+        Ok(l) if l.as_usize() == Some(n) => {}
+        // a lazy result over an iterable of unknown length has no length of its own
+        Err(_) if r.kind() == ValueKind::Iterable && r.len().is_none() => {}
+        other => return Some(format!("`r|length` gives {other:?} for a result of {n} items")),
+    }
+    for (src, start, stop, step) in [
+        ("r[-2:]", Some(-2i128), None, None),
+        ("r[:-1]", None, Some(-1i128), None),
+        ("r[::-1]", None, None, Some(-1i128)),
+        ("r[-3:-1:2]", Some(-3), Some(-1), Some(2)),
+        ("r[1:]", Some(1), None, None),
+    ] {
+        let sel = pyslice::slice_indices(n, start, stop, step).unwrap();
+        let g = match run(src) {
+            Ok(g) => g,
+            Err(e) => return Some(format!("`{src}` of the result fails: {e}")),
+        };
+        let ok = match items {
+            Items::Chars(cs) => {
+                let w: String = sel.iter().map(|&j| cs[idx[j]]).collect();
+                g.as_str() == Some(w.as_str())
+            }
+            Items::Bytes(bs) => {
+                let w: Vec<u8> = sel.iter().map(|&j| bs[idx[j]]).collect();
+                g.as_bytes() == Some(&w[..])
+            }
+            Items::Ints(xs) => {
+                let w: Vec<Value> = sel.iter().map(|&j| Value::from(xs[idx[j]])).collect();
+                let got: Option<Vec<Value>> = g.try_iter().ok().map(|i| i.collect());
+                got.as_ref() == Some(&w) && g.is_tuple() == tuple
+            }
+        };
+        if !ok {
+            return Some(format!("`{src}` of the result (items at {idx:?}) gives {}, python selects positions {sel:?} of it", describe(&g)));
+        }
+    }
+    for (src, pos) in [("r[-1]", n.checked_sub(1)), ("r[0]", if n > 0 { Some(0) } else { None }), ("r[-2]", n.checked_sub(2))] {
+        let g = match run(src) {
+            Ok(g) => g,
+            Err(e) => return Some(format!("`{src}` of the result fails: {e}")),
+        };
+        let ok = match (pos, items) {
+            (None, _) => g.is_undefined(),
+            (Some(j), Items::Chars(cs)) => g.as_str() == Some(cs[idx[j]].to_string().as_str()),
+            (Some(_), Items::Bytes(_)) => true, // what a byte subscript yields is not part of the statement
+            (Some(j), Items::Ints(xs)) => g == Value::from(xs[idx[j]]),
+        };
+        if !ok {
+            return Some(format!("`{src}` of the result (items at {idx:?}) gives {}", describe(&g)));
+        }
+    }
+    None
+}
+
 // ------------------------------------------------------------------ slices
 
 #[derive(Clone, Debug, Serialize, Deserialize)]
@@ -263,11 +323,22 @@ impl Slices {
                         kind_ok && got_items.as_ref() == Some(&w) && again == got_items
                     }
                 };
+                let family = match c.kind {
+                    Kind::UnsizedIter => "unsized",
+                    _ => "sized",
+                };
+                if ok {
+                    // the result is a sequence in its own right: its length, end-relative
+                    // subscripts and a second slice of it follow the same rules
+                    if let Some(why) = follow_ups(&g, &items, &idx, c.kind == Kind::Tuple) {
+                        v.labels.push("result_resliced");
+                        v.set_fail(
+                            format!("slice_of_slice_wrong:{family}"),
+                            format!("{:?} len {len} `{src}` ({c:?}) selects the right items, but then {why}", c.kind),
+                        );
+                    }
+                }
                 if !ok {
-                    let family = match c.kind {
-                        Kind::UnsizedIter => "unsized",
-                        _ => "sized",
-                    };
                     v.set_fail(
                         format!("slice_wrong:{dir}:{family}"),
                         format!(
